@@ -64,6 +64,16 @@ STALE = ["commit_loose", "add_pack", "pack_loose", "repack", "gc_now",
          "delete_ref", "move_ref", "shallow", "graft", "delete_then_gc"]
 
 
+FAULT_COUNTERS = {
+    "probe:stale_accelerator": "stale derived file (history moved on after "
+                               "it was written)",
+    "probe:mismatched_accelerator": "misdirected write (accelerator file of "
+                                    "another repository)",
+    "probe:midx_points_at_removed_pack": "stale multi-pack-index naming a "
+                                         "removed pack",
+}
+
+
 def budget(tier):
     return 6000 if tier == "quick" else 300000
 
